@@ -132,8 +132,10 @@ def _dc_post(old, new, ret):
     k, j = z3.Int("k!dc"), z3.Int("t!dc")
     V = sim.network._voltages.v.arrs[0]
     power = z3.Lambda([j], col_sum(sim, j, V) / 1000)
-    return z3.Exists([k], z3.And(k >= 0, k < t._schedule.len, applies(old, sched(old, t, k), sim.start.theta),
-                                 ret == sched(old, t, k).demand_charge * MAXF(power, T)))
+    rate = new.ret_get_demand_charge          # ghost witness: the demand rate the tariff returned for the start instant
+    return [("rate_is_the_demand_charge_of_the_schedule_in_effect_at_the_start",
+             z3.Exists([k], z3.And(k >= 0, k < t._schedule.len, applies(old, sched(old, t, k), sim.start.theta), sched(old, t, k).demand_charge == rate))),
+            ("charge_is_rate_times_peak_aggregate_power", ret == rate * MAXF(power, T))]
 
 
 REG.contract(
